@@ -341,11 +341,14 @@ def run_cbo(case):
 
                 rec.canon = canon
             df0 = None
-            if mode == "warm":
+            has_fit = any(c0[0] == "fit" for c0 in case.get("calls") or []) or any(o[0] == "fit" for o in case.get("ops") or [])
+            if mode == "warm" or has_fit:
                 # a first search (not observed) leaves a checkpoint; the observed search is warm-started from it (fit_surrogate)
                 d0 = os.path.join(d, "first")
                 ev0 = Evaluator.create(run, method="serial", method_kwargs={"num_workers": case["nw"]})
-                df0 = mk_search(ev0, d0, case["seed"] + 1).search(max_evals=case["warm_evals"])
+                df0 = mk_search(ev0, d0, case["seed"] + 1).search(max_evals=case.get("warm_evals", 4))
+                df0_path = os.path.join(d0, "checkpoint.csv")
+                df0.to_csv(df0_path, index=False)
                 with contextlib.suppress(Exception):
                     ev0.close()
             search = mk_search(ev, os.path.join(d, "main"), case["seed"])
@@ -357,6 +360,11 @@ def run_cbo(case):
                     # several search() calls on the same object (budgets accumulate); strict: MaximumJobsSpawnReached may end a call
                     # in the middle of submitting an asked batch
                     for n_call, strict in case["calls"] if "calls" in case and case["calls"] is not None else [[case["evals"], False]]:
+                        if n_call == "fit":
+                            # fit_surrogate in the MIDDLE of a history, on the same object (checkpoint given as DataFrame or as path):
+                            # what was proposed before must stay known to the duplicate filter
+                            search.fit_surrogate(df0 if strict == "df" else df0_path)
+                            continue
                         df = search.search(max_evals=n_call, max_evals_strict=bool(strict))
                     if mode == "asktell":
                         # the public ask / tell interface driven by the caller, in any order (asks without tell, partial tells);
@@ -366,6 +374,8 @@ def run_cbo(case):
                             if op[0] == "ask":
                                 got = search.ask(op[1])
                                 pending.extend((dict(g), g) for g in got)
+                            elif op[0] == "fit":
+                                search.fit_surrogate(df0 if op[1] == "df" else df0_path)
                             elif op[0] == "hold":
                                 # the last asked configurations are slow jobs: their results are not told (for now); the objective
                                 # is the best at the first of them
@@ -501,15 +511,19 @@ def _short(e):
     return [e[0]] + [x if not isinstance(x, list) else [cut(c) for c in x] for x in e[1:]]
 
 
+def has_fit_case(case):
+    return any(c0[0] == "fit" for c0 in case.get("calls") or []) or any(o[0] == "fit" for o in case.get("ops") or [])
+
+
 def check_cbo(case):
     N = space_size(case["dims"], case.get("conds"))
     res = dict(ok=True, kind="oracle", clause="", nontrivial=False,
                sig=dict(strategy=case["strat"], surrogate=case["sur"], ff=case.get("ff", "min"),
-                        calls="strict" if any(st for _, st in case.get("calls") or []) else ("multi" if case.get("calls") else "one")),
+                        calls="strict" if any(st is True for _, st in case.get("calls") or []) else ("multi" if case.get("calls") else "one")),
                desc=["sur=" + case["sur"], "strat=" + case["strat"], "nw=%d" % case["nw"], "N=%s" % N, "ff=" + case.get("ff", "min"),
                      "dims=" + "+".join(sorted(set(d[0] for d in case["dims"]))),
                      "calls=%d" % len(case.get("calls") or [0]), "mode=" + case.get("mode", "search"), "pending_optimum" if case.get("peak") or case.get("slow") else "plain_objective", "acq=" + case.get("acq", "UCBd"), "acq_opt=" + case.get("acq_opt", "auto"),
-                     "cond" if case.get("conds") else "product", "moo" if case.get("moo") else "single_objective", "strict" if any(st for _, st in case.get("calls") or []) else "not_strict", "fail=" + case.get("fail", ["none"])[0], "gather=" + case.get("gather", "BATCH")])
+                     "cond" if case.get("conds") else "product", "moo" if case.get("moo") else "single_objective", "strict" if any(st is True for _, st in case.get("calls") or []) else "not_strict", "fit_in_the_middle" if has_fit_case(case) else "no_mid_fit", "fail=" + case.get("fail", ["none"])[0], "gather=" + case.get("gather", "BATCH")])
     rec, cfg, rows, error, n0 = run_cbo(case)
     if error is not None:
         kind = error.split(":")[0]
@@ -644,6 +658,10 @@ def gen_cbo(count, surrogates, big=False, cont=False):
                 for _k in range(rng.randint(3, 10)):
                     r = rng.random()
                     ops.append(["ask", rng.randint(1, 4)] if r < 0.5 else ["tell", rng.randint(1, 5)] if r < 0.9 else ["search", rng.randint(1, 4), rng.random() < 0.5])
+                if rng.random() < 0.6:
+                    ops.insert(rng.randint(1, len(ops)), ["fit", rng.choice(["df", "path"])])
+                    ops.append(["ask", rng.randint(1, 3)])
+                    c["warm_evals"] = rng.randint(2, 8)
                 c["ops"] = ops
             elif i % 4 == 2:
                 # the same budget spent in 2..4 search() calls, some of them strict (the call may stop between an ask and its tell)
@@ -656,6 +674,10 @@ def gen_cbo(count, surrogates, big=False, cont=False):
                     left -= n_call
                 if left > 0:
                     calls.append([left, rng.random() < 0.5])
+                if len(calls) >= 2 and rng.random() < 0.6:
+                    # search, then fit_surrogate on the SAME object, then search again
+                    calls.insert(rng.randint(1, len(calls) - 1), ["fit", rng.choice(["df", "path"])])
+                    c["warm_evals"] = rng.randint(2, 8)
                 c["calls"] = calls
             yield c
     return g
@@ -703,6 +725,8 @@ def shrink_cbo(case):
         for i in range(len(calls)):
             if len(calls) > 1:
                 yield dict(case, calls=calls[:i] + calls[i + 1:])
+            if calls[i][0] == "fit":
+                continue
             if calls[i][0] > 1:
                 yield dict(case, calls=calls[:i] + [[calls[i][0] - 1, calls[i][1]]] + calls[i + 1:])
             if calls[i][1]:
